@@ -12,11 +12,12 @@
 -/
 import EnvVerif.Lemmas.AssembleLemmas
 namespace EnvVerif
-open Env
+open Env AW
 
 /-- Closed form of `addAll` on an envelope satisfying the invariant: an error exactly when
-some element is not a legal assertion slot; otherwise the result has the same subject, a
-strictly ascending stored list, and (digests injective) exactly the union as element set. -/
+some element is not a legal assertion slot; otherwise the envelope with the same subject
+whose stored list is obtained by inserting the elements one by one (`normAdd`: ignore an
+element whose digest is present, else append and re-sort). -/
 theorem addAll_char (h : Hash) (s : Env) (l : List Env) (hi : Inv h s) :
     addAll h s l =
       if l.all slotOk then .ok (rebuild h s.subject (l.foldl normAdd s.assertions))
@@ -26,34 +27,44 @@ theorem addAll_char (h : Hash) (s : Env) (l : List Env) (hi : Inv h s) :
   rw [hr] at this
   exact this
 
-/-- the assertions stored by `addAll`: ascending, and (digests injective on the inputs) the
-union of the old ones and the added ones -/
+/-- the assertions stored by `addAll`: strictly ascending; the old ones, plus the added ones
+whose digest was not already present (digests injective on the added ones) -/
 theorem addAll_assertions (h : Hash) (s : Env) (l : List Env) (hi : Inv h s)
-    (hslot : ∀ a ∈ l, a.slotOk = true) (hinj : DigInj (l ++ s.assertions)) :
+    (hslot : ∀ a ∈ l, a.slotOk = true)
+    (hinj : ∀ a ∈ l, ∀ b ∈ l, a.digest = b.digest → a = b) :
     ∃ e', addAll h s l = .ok e' ∧ e'.subject = s.subject ∧ AscDigests e'.assertions ∧
-      ∀ x, x ∈ e'.assertions ↔ x ∈ s.assertions ∨ x ∈ l := by
+      ∀ x, x ∈ e'.assertions ↔
+        x ∈ s.assertions ∨ (x ∈ l ∧ ∀ y ∈ s.assertions, y.digest ≠ x.digest) := by
   obtain ⟨hr, hc, hasc⟩ := rebuild_of_inv hi
   have hall : l.all slotOk = true := List.all_eq_true.2 hslot
   refine ⟨_, by rw [addAll_char h s l hi, hall]; rfl, ?_⟩
-  cases hl : l with
+  have hmem := mem_foldl_normAdd l (as := s.assertions) hinj
+  have hasc' := foldl_normAdd_asc l hasc
+  generalize l.foldl normAdd s.assertions = L at hmem hasc'
+  cases L with
   | nil =>
-    simp only [List.foldl_nil, hr, List.not_mem_nil, or_false]
-    exact ⟨trivial, hasc, fun _ => trivial⟩
-  | cons a l' =>
-    have hne : (a :: l').foldl normAdd s.assertions ≠ [] := by
-      intro hnil
-      have := (mem_foldl_normAdd (a :: l') (hl ▸ hinj) a).2 (Or.inr (by simp))
-      rw [hnil] at this; simp at this
-    rw [rebuild_ne hne]
-    simp only [nodeOf, Env.subject, Env.assertions, true_and]
-    exact ⟨foldl_normAdd_asc _ hasc, mem_foldl_normAdd _ (hl ▸ hinj)⟩
+    have hnil : s.assertions = [] := by
+      cases hs : s.assertions with
+      | nil => rfl
+      | cons y ys =>
+        have := (hmem y).2 (Or.inl (by simp [hs]))
+        simp at this
+    simp only [rebuild]
+    rw [hnil] at hr hmem
+    simp only [rebuild] at hr
+    rw [hr]
+    exact ⟨hr, by rw [hnil]; exact hasc', by rw [hnil]; exact hmem⟩
+  | cons a L' =>
+    simp only [rebuild, nodeOf, Env.subject, Env.assertions]
+    exact ⟨trivial, hasc', hmem⟩
 
-/-- **any order, any repetition**: the same set of assertions added to the same envelope
-gives the same `Res Env` value.  Stronger than the planned statement: the hypothesis that
-the added elements are legal slots is not needed (both sides are then the same error). -/
+/-- **any order, any repetition**: the same set of assertions (pairwise distinct digests)
+added to the same envelope gives the same `Res Env` value.  Stronger than the planned
+statement: the hypothesis that the added elements are legal slots is not needed (both sides
+are then the same error). -/
 theorem addAll_perm_strong (h : Hash) (s : Env) (l1 l2 : List Env) (hi : Inv h s)
     (hmem : ∀ a, a ∈ l1 ↔ a ∈ l2)
-    (hinj : ∀ a ∈ l1 ++ s.assertions, ∀ b ∈ l1 ++ s.assertions, a.digest = b.digest → a = b) :
+    (hinj : ∀ a ∈ l1, ∀ b ∈ l1, a.digest = b.digest → a = b) :
     addAll h s l1 = addAll h s l2 := by
   obtain ⟨_, _, hasc⟩ := rebuild_of_inv hi
   rw [addAll_char h s l1 hi, addAll_char h s l2 hi]
@@ -62,10 +73,10 @@ theorem addAll_perm_strong (h : Hash) (s : Env) (l1 l2 : List Env) (hi : Inv h s
     exact ⟨fun hh a ha => hh a ((hmem a).2 ha), fun hh a ha => hh a ((hmem a).1 ha)⟩
   rw [hall, foldl_normAdd_perm hasc hmem hinj]
 
-/-- the planned statement of Appendix D -/
+/-- the planned statement of Appendix D (digests injective on the added list only) -/
 theorem addAll_perm (h : Hash) (s : Env) (l1 l2 : List Env) (hi : Inv h s)
     (_hslot : ∀ a ∈ l1, a.slotOk = true) (hmem : ∀ a, a ∈ l1 ↔ a ∈ l2)
-    (hinj : ∀ a ∈ l1 ++ s.assertions, ∀ b ∈ l1 ++ s.assertions, a.digest = b.digest → a = b) :
+    (hinj : ∀ a ∈ l1, ∀ b ∈ l1, a.digest = b.digest → a = b) :
     addAll h s l1 = addAll h s l2 :=
   addAll_perm_strong h s l1 l2 hi hmem hinj
 
@@ -73,10 +84,23 @@ theorem addAll_perm (h : Hash) (s : Env) (l1 l2 : List Env) (hi : Inv h s)
 equality of errors) -/
 theorem addAll_perm_ok (h : Hash) (s : Env) (l1 l2 : List Env) (hi : Inv h s)
     (hslot : ∀ a ∈ l1, a.slotOk = true) (hmem : ∀ a, a ∈ l1 ↔ a ∈ l2)
-    (hinj : ∀ a ∈ l1 ++ s.assertions, ∀ b ∈ l1 ++ s.assertions, a.digest = b.digest → a = b) :
+    (hinj : ∀ a ∈ l1, ∀ b ∈ l1, a.digest = b.digest → a = b) :
     ∃ e', addAll h s l1 = .ok e' ∧ addAll h s l2 = .ok e' := by
   obtain ⟨e', he', _⟩ := addAll_assertions h s l1 hi hslot hinj
   exact ⟨e', he', (addAll_perm h s l1 l2 hi hslot hmem hinj) ▸ he'⟩
+
+/-- the injectivity hypothesis of `addAll_perm` cannot be dropped: the same assertion supplied
+once in the clear and once elided (equal digests) — the first one wins, so the order shows -/
+theorem addAll_first_wins :
+    ∃ (h : Hash) (s a b : Env), Inv h s ∧ a.slotOk = true ∧ b.slotOk = true ∧ a.digest = b.digest ∧
+      addAll h s [a, b] ≠ addAll h s [b, a] := by
+  refine ⟨Toy.hLen, Toy.exSubj, Toy.exA1, .elided Toy.exA1.digest, ?_, rfl, rfl, rfl, ?_⟩
+  · simp [Inv, WF, Canon, Toy.exSubj, newLeaf]
+  · have hi : Inv Toy.hLen Toy.exSubj := by simp [Inv, WF, Canon, Toy.exSubj, newLeaf]
+    rw [addAll_char Toy.hLen _ _ hi, addAll_char Toy.hLen _ _ hi]
+    simp [slotOk, isSubjectAssertion, isSubjectObscured, isSubjectElided, Toy.exA1, newAssertion,
+      Toy.exSubj, newLeaf, Env.assertions, Env.subject, normAdd, sortByDigest_singleton, rebuild,
+      nodeOf, Env.digest]
 
 /-- equal envelopes have equal encodings (trivial; makes the chain explicit) -/
 theorem encode_congr {e1 e2 : Env} (he : e1 = e2) : encode e1 = encode e2 := by rw [he]
@@ -84,7 +108,7 @@ theorem encode_congr {e1 e2 : Env} (he : e1 = e2) : encode e1 = encode e2 := by 
 /-- **any order ⇒ byte-identical** -/
 theorem addAll_perm_bytes (h : Hash) (s : Env) (l1 l2 : List Env) (hi : Inv h s)
     (hslot : ∀ a ∈ l1, a.slotOk = true) (hmem : ∀ a, a ∈ l1 ↔ a ∈ l2)
-    (hinj : ∀ a ∈ l1 ++ s.assertions, ∀ b ∈ l1 ++ s.assertions, a.digest = b.digest → a = b)
+    (hinj : ∀ a ∈ l1, ∀ b ∈ l1, a.digest = b.digest → a = b)
     (e1 e2 : Env) (h1 : addAll h s l1 = .ok e1) (h2 : addAll h s l2 = .ok e2) :
     encode e1 = encode e2 ∧ e1.digest = e2.digest := by
   have := addAll_perm h s l1 l2 hi hslot hmem hinj
@@ -93,7 +117,15 @@ theorem addAll_perm_bytes (h : Hash) (s : Env) (l1 l2 : List Env) (hi : Inv h s)
   subst this
   exact ⟨rfl, rfl⟩
 
-/-- **adding an assertion already present changes nothing** (no hypothesis on `e`) -/
+/-- **adding an assertion already present (by digest) changes nothing** -/
+theorem add_present (h : Hash) (e a : Env) (hslot : a.slotOk = true)
+    (hp : ∃ x ∈ e.assertions, x.digest = a.digest) : addAssertionEnvelope h e a = .ok e := by
+  cases e <;> simp [Env.assertions] at hp
+  rename_i s as d
+  have := any_digest_iff.2 hp
+  simp [addAssertionEnvelope, hslot, this]
+
+/-- ... in particular adding twice is adding once (no hypothesis on `e`) -/
 theorem add_idempotent (h : Hash) (e a e' : Env) (hadd : addAssertionEnvelope h e a = .ok e') :
     addAssertionEnvelope h e' a = .ok e' := by
   unfold addAssertionEnvelope at hadd
@@ -162,21 +194,19 @@ theorem unwrap_wrap (h : Hash) (e : Env) : unwrap (wrap h e) = .ok e := rfl
 /-! ### the hypotheses are satisfiable -/
 
 section Examples
-open Toy
+open AW.Toy
 /-- `addAll_perm`, `addAll_perm_ok`, `addAll_perm_bytes`: a node with two assertions, a
 third one added together with a repetition of an existing one, in two different orders -/
 example : Inv hLen exNode ∧ (∀ a ∈ [exA3, exA1, exA3], a.slotOk = true) ∧
     (∀ a, a ∈ [exA3, exA1, exA3] ↔ a ∈ [exA1, exA3]) ∧
-    (∀ a ∈ [exA3, exA1, exA3] ++ exNode.assertions, ∀ b ∈ [exA3, exA1, exA3] ++ exNode.assertions,
-      a.digest = b.digest → a = b) := by
+    (∀ a ∈ [exA3, exA1, exA3], ∀ b ∈ [exA3, exA1, exA3], a.digest = b.digest → a = b) := by
   refine ⟨exNode_inv, ?_, ?_, ?_⟩
   · simp [exA3, exA1, newAssertion, slotOk, isSubjectAssertion, isSubjectObscured, isSubjectElided]
   · intro a; simp only [List.mem_cons, List.not_mem_nil, or_false]
     constructor
     · rintro (h | h | h) <;> simp [h]
     · rintro (h | h) <;> simp [h]
-  · simp [exNode, nodeOf, Env.assertions, exA1, exA2, exA3, newAssertion, newLeaf, Env.digest,
-      Hash.ofDigests, hLen, catDigests, Digest.bytes, beBytes]
+  · simp [exA1, exA3, newAssertion, newLeaf, Env.digest, Hash.ofDigests, hLen, catDigests_length]
 
 /-- `remove_add`: adding `exA3` (new digest) to the node -/
 example : Inv hLen exNode ∧ exA3.slotOk = true ∧ (∀ x ∈ exNode.assertions, x.digest ≠ exA3.digest) ∧
